@@ -292,12 +292,13 @@ class SymVal(Sym):
 
 
 class SymStr(Sym):
-    __slots__ = ('segs',)
+    __slots__ = ('segs', 'src')
     __class__ = property(lambda self: str)
 
-    def __init__(self, t, segs=None):
+    def __init__(self, t, segs=None, src=None):
         self.t = t
         self.segs = segs  # None, or list of ('lit', str) | ('atom', term, Chars)
+        self.src = src    # for digests: (hashed text as SymStr, slice start, slice stop)
 
     # ---- construction
     @staticmethod
@@ -438,7 +439,10 @@ class SymStr(Sym):
         if segs is not None:
             if len(segs) == 1 and segs[0][0] == 'atom':
                 t = z3.simplify(term)
-                return SymStr(t, [('atom', t, segs[0][2])])     # a slice of an atom keeps its character class
+                src = None
+                if self.src is not None and self.src[1] is None:
+                    src = (self.src[0], a, b)
+                return SymStr(t, [('atom', t, segs[0][2])], src)     # a slice of an atom keeps its character class
             # literal prefix long enough to answer syntactically
             lit = 0
             i = 0
@@ -609,26 +613,38 @@ def _seg_eq(a, b):
     if len(sa) == len(sb) and all(x[0] == y[0] and (x[1] == y[1] if x[0] == 'lit' else x[1].eq(y[1])) for x, y in
                                   zip(sa, sb)):
         return True
-    # split both on a separator that is syntactic for both -> component-wise equality
-    for sep in (':', '/'):
-        if all(_syn(s, sep) for s in (sa, sb)):
-            if not (_has_lit(sa, sep) or _has_lit(sb, sep)):
-                continue
-            pa, pb = _split_segs(sa, sep), _split_segs(sb, sep)
-            if len(pa) != len(pb):
-                return False
-            conds = []
-            for x, y in zip(pa, pb):
-                x, y = SymStr.from_segs(x), SymStr.from_segs(y)
+    # split both on a single character that can only occur in literal runs of both sides: for such a character
+    # splitting is a bijection between strings and lists of separator-free pieces, so equality is piece-wise
+    cands = []
+    for sg in list(sa) + list(sb):
+        if sg[0] == 'lit':
+            for ch in sg[1]:
+                if ch not in cands:
+                    cands.append(ch)
+    pref = [c for c in "':/#$,= " if c in cands] + [c for c in cands if c not in "':/#$,= "]
+    for sep in pref:
+        if not (_syn(sa, sep) and _syn(sb, sep)):
+            continue
+        pa, pb = _split_segs(sa, sep), _split_segs(sb, sep)
+        if len(pa) != len(pb):
+            return False
+        conds = []
+        for x, y in zip(pa, pb):
+            x, y = SymStr.from_segs(x), SymStr.from_segs(y)
+            if isinstance(x, Sym):
                 r = (x == y)
-                if r is False:
-                    return False
-                if r is True:
-                    continue
-                conds.append(to_bool_term(r))
-            if not conds:
-                return True
-            return mkbool(z3.And(conds))
+            elif isinstance(y, Sym):
+                r = (y == x)
+            else:
+                r = (x == y)
+            if r is False:
+                return False
+            if r is True:
+                continue
+            conds.append(to_bool_term(r))
+        if not conds:
+            return True
+        return mkbool(z3.And(conds))
     return None
 
 
